@@ -49,6 +49,8 @@ PPSTMTS = [
     "#if 16 % Z == 0", "#if defined(", "#if (X", "#ifdef X", "#ifdef", "#ifndef", "#elif X", "#elif", "#else", "#endif",
     "#include \"nofile.h\"", "#include", "#define", "#if 1 &&", "#if X == 'a'", "integer :: F(1,2)", "x = F(1", "x = X Y", "",
     "#define G() \\g<1", "#define H(a) (a <= 3)", "#if H", "# ", "#pragma once", "#if 2 ** 99999999 > 0", "#if 1 << 9999999999",
+    "#define P(s) print *, s", "P('C:\\data\\x')", "P('(a,\\g)')", "x = P(b, 2.0\\)", "#if X && Y", "#if X /* c */", "#if -7/2 == -3",
+    "#define X 2", "#ifdef X // c", "x = P(P(1))",
 ]
 NS, NP = len(STMTS), len(PPSTMTS)
 PATH = ws.ROOT + "/doc.f90"
@@ -169,7 +171,7 @@ def pp_seq(t0: int, t1: int, a: bool) -> bool:
                 lines = [PPSTMTS[t0]] + ([PPSTMTS[t1_]] if t1_ >= 0 else []) + ([PPSTMTS[t2]] if t2 >= 0 else [])
                 f = FortranFile("/x/doc.F90")
                 f.set_contents(list(lines))
-                ast = f.parse(pp_defs={"X": "1", "Z": "0"} if a else {})
+                ast = f.parse(pp_defs={"X": "1", "Z": "0", "F(": "1", "G[x": "2"} if a else {})
                 f.ast = ast
                 f.check_file({})
         return True
